@@ -1,21 +1,26 @@
 import InfluxQL.Model.Cond
 /-
-`SelectStatement.SetTimeRange`, `rewriteWithoutTimeDimensions` (ast.go), `Rewrite` / `RewriteFunc`
-restricted to expressions.
+`SelectStatement.SetTimeRange`, `rewriteWithoutTimeDimensions` (ast.go), `RewriteExpr` (on
+expressions without nil children, where it is `Rewrite` / `RewriteFunc` restricted to expressions).
 
-    cond := "time >= '<start>' AND time < '<end>'"            (RFC3339Nano, UTC)
-    if s.Condition != nil { cond = rewriteWithoutTimeDimensions() + " AND " + cond }
-    expr := ParseExpr(cond);  s.Condition = CReduce(expr, nil)
+    cond := time >= '<start>'                                  (BinaryExpr{GTE, VarRef{time}, StringLiteral{RFC3339Nano, UTC}})
+    if s.Condition != nil { cond = BinaryExpr{AND, rewriteWithoutTimeDimensions(), cond} }
+    cond = BinaryExpr{AND, cond, time < '<end>'}
+    s.Condition = Reduce(cond, nil)
 
-The rewrite is bottom-up: children first, then the node. A binary node one of whose (already
-rewritten) operands is a reference to time — `isTimeRef`: a `*VarRef` with
-`strings.ToLower(Val) == "time"`, whatever its type annotation, the test `conditionExpr` uses —
-becomes `true`; everything else, calls included, is kept (the arguments of a call are visited);
-the result is printed — in parentheses when its top node is an `OR`, the one operator that binds
-looser than the `AND` the caller appends — and parsed again.
-(Before the fixes 51161c4 / 86fc254 of /repo the test was "the left operand prints as `time`",
-and every call became `true`; before the fix of the finding C18-top-level-or-captures-the-window
-the text was never parenthesised, so `a OR b AND <window>` re-parsed as `a OR (b AND <window>)`.)
+The new condition is built as a tree; nothing is printed and nothing is parsed. The rewrite is
+bottom-up: children first, then the node. A binary node one of whose (already rewritten) operands
+is a reference to time — `isTimeRef`: a `*VarRef` with `strings.ToLower(Val) == "time"`, whatever
+its type annotation, the test `conditionExpr` uses — becomes `true`; everything else, calls
+included, is kept (the arguments of a call are visited); the result is wrapped in a `ParenExpr`
+when its top node is an `OR`, the one operator that binds looser than the `AND` it becomes the left
+operand of (so that the new condition prints as text that parses back with the same grouping).
+(Before the fixes 51161c4 / 86fc254 of /repo the test was "the left operand prints as `time`", and
+every call became `true`; before d61fb53 an `OR` at the top was not grouped; until the fix of
+C18-condition-does-not-reparse / C18-folded-time-literal-comes-back-as-string the condition was
+built as text — `fmt.Sprintf("%s AND %s", …)` — and parsed again, which is not the identity on every
+tree. That old route is kept, as a specification-side definition only, in
+`Model/SetTimeRangeSpec.lean`: `textRoute`.)
 -/
 namespace InfluxQL
 open Gen
@@ -31,8 +36,10 @@ structure Window where
 def timeText : Str := ['t', 'i', 'm', 'e']
 
 mutual
-  /-- The function passed to `RewriteFunc`, applied bottom-up as `Rewrite` does (`Rewrite` descends
-  into binary nodes, parentheses and call arguments). -/
+  /-- The function passed to `RewriteExpr`, applied bottom-up as `RewriteExpr` does (it descends
+  into binary nodes, parentheses and call arguments, children first; the function never returns nil,
+  so no node is dropped). Before the tree-building fix the same function was passed to `RewriteFunc`,
+  which visits the same nodes in the same order. -/
   def rewriteNoTime (tbl : List (Char × Char)) : Expr → Expr
     | .binary op l r =>
       let l' := rewriteNoTime tbl l
@@ -52,10 +59,6 @@ def timeVar : Expr := .varRef timeText .Unknown
 def geBound (s : Int) : Expr := .binary .GTE timeVar (.string (formatRFC3339Nano s))
 def ltBound (e : Int) : Expr := .binary .LT timeVar (.string (formatRFC3339Nano e))
 
-def boundsText (w : Window) : Str :=
-  ['t', 'i', 'm', 'e', ' ', '>', '=', ' ', '\''] ++ formatRFC3339Nano w.start ++
-  ['\'', ' ', 'A', 'N', 'D', ' ', 't', 'i', 'm', 'e', ' ', '<', ' ', '\''] ++ formatRFC3339Nano w.stop ++ ['\'']
-
 /-- The top node is an `OR`: `b, ok := n.(*BinaryExpr); ok && b.Op == OR`. `OR` is the only operator
 whose precedence is below that of `AND` (`Token.Precedence`; `C18.gen_only_or_binds_looser_than_and`
 checks it on the generated table). -/
@@ -63,29 +66,27 @@ def topIsOr : Expr → Bool
   | .binary op _ _ => decide (op = .OR)
   | _ => false
 
-/-- The string `rewriteWithoutTimeDimensions` returns: the rewritten condition printed, in
-parentheses exactly when its top node is an `OR` (`"(" + n.String() + ")"`). -/
-def rewrittenText (tbl : List (Char × Char)) (c : Expr) : Str :=
-  let n := rewriteNoTime tbl c
-  if topIsOr n then ['('] ++ n.print ++ [')'] else n.print
+/-- The end of `rewriteWithoutTimeDimensions`: `&ParenExpr{Expr: n}` exactly when the top node of
+`n` is an `OR`, else `n`. -/
+def groupForAnd (e : Expr) : Expr := if topIsOr e then .paren e else e
 
-/-- The text handed to the parser. -/
-def setTimeRangeText (tbl : List (Char × Char)) (cond : Option Expr) (w : Window) : Str :=
+/-- The tree `SetTimeRange` hands to `Reduce`: `time >= start AND time < end` when the statement has
+no condition, `(<rewritten, grouped condition> AND time >= start) AND time < end` otherwise. -/
+def setTimeRangeTree (tbl : List (Char × Char)) (cond : Option Expr) (w : Window) : Expr :=
   match cond with
-  | none => boundsText w
-  | some c => rewrittenText tbl c ++ [' ', 'A', 'N', 'D', ' '] ++ boundsText w
+  | none => .binary .AND (geBound w.start) (ltBound w.stop)
+  | some c => .binary .AND (.binary .AND (groupForAnd (rewriteNoTime tbl c)) (geBound w.start)) (ltBound w.stop)
 
 def nilRCtx (fa : FloatArith) : RCtx := { valuer := none, fa := fa }
 
-/-- `SetTimeRange(start, end)`: the new condition, or the parse error (condition unchanged). -/
+/-- `SetTimeRange(start, end)`: the new condition. The Go function still has an `error` result, which
+is always `nil`; the model keeps the `Except` type for the same reason, and always returns `.ok`. -/
 def setTimeRange (fa : FloatArith) (tbl : List (Char × Char)) (cond : Option Expr) (w : Window) :
     Except Fail Expr :=
-  match parseExprText (setTimeRangeText tbl cond w) [] tbl with
-  | .error f => .error f
-  | .ok e => .ok (CReduce (nilRCtx fa) e)
+  .ok (CReduce (nilRCtx fa) (setTimeRangeTree tbl cond w))
 
-/-- Successive calls, as a continuous query makes them; stops at the first error. Returns the
-condition after each call. -/
+/-- Successive calls, as a continuous query makes them (a caller stops at the first error; there is
+none any more). Returns the condition after each call. -/
 def setTimeRangeSeq (fa : FloatArith) (tbl : List (Char × Char)) : Option Expr → List Window →
     List (Except Fail Expr)
   | _, [] => []
